@@ -1,6 +1,8 @@
 import Bmc.Proofs.C10
+import Bmc.Proofs.GenLoops.BuildAndSend
 import Bmc.Proofs.GenLoops.BuildAndSendCommand
 import Bmc.Proofs.GenLoops.BuildAndSendPayload
+import Bmc.Proofs.EndToEnd.SessionC03
 import Bmc.Proofs.EndToEnd.SessionlessC10
 #print axioms Bmc.Proofs.C10.session_send_refines
 #print axioms Bmc.Proofs.C10.lost_in_session_stops
@@ -11,11 +13,17 @@ import Bmc.Proofs.EndToEnd.SessionlessC10
 #print axioms Bmc.Proofs.C10.busy_then_final
 #print axioms Bmc.Proofs.C10.handshake_payload_retries
 #print axioms Bmc.Proofs.C10.sessionless_retries_until_final
+#print axioms Bmc.Proofs.GenLoops.V2Session_buildAndSend_gen_eq
+#print axioms Bmc.Proofs.GenLoops.V2Session_buildAndSend_events_eq
+#print axioms Bmc.Proofs.GenLoops.V2Session_buildAndSend_expired_context
+#print axioms Bmc.Proofs.GenLoops.V2Session_SendCommand_gen_eq
+#print axioms Bmc.Proofs.GenLoops.V2Session_SendCommand_events_eq
 #print axioms Bmc.Proofs.GenLoops.V2Sessionless_buildAndSendCommand_gen_eq
 #print axioms Bmc.Proofs.GenLoops.V2Sessionless_buildAndSendCommand_events_eq
 #print axioms Bmc.Proofs.GenLoops.V2Sessionless_SendCommand_gen_eq
 #print axioms Bmc.Proofs.GenLoops.V2Sessionless_SendCommand_events_eq
 #print axioms Bmc.Proofs.GenLoops.V2Sessionless_buildAndSendPayload_gen_eq
 #print axioms Bmc.Proofs.GenLoops.V2Sessionless_buildAndSendPayload_serialize_error
+#print axioms Bmc.Proofs.EndToEnd.generated_loop_datagrams
 #print axioms Bmc.Proofs.EndToEnd.generated_sessionless_SendCommand_retries
 #print axioms Bmc.Proofs.EndToEnd.generated_sessionless_SendCommand_until_final
